@@ -8,12 +8,12 @@
 
    Proved for the fast compressor model, ALL inputs / capacities / accelerations / table
    types / dictionary directives, notLimited and limitedOutput (one-shot, and - through
-   the generic theorem - every streaming/dictionary call that instantiates it); the
-   fillOutput (destSize) directive is C17's theorem.  HC compressors are not modelled:
+   the generic theorem - every streaming/dictionary call that instantiates it), and for the
+   fillOutput directive (LZ4_compress_destSize, C06_destSize_strict).  HC compressors are not modelled:
    direct oracle only (C06_hc_full_statement). *)
 From Coq Require Import ZArith List Lia Bool.
 From LZ4V Require Import Gen.Consts Spec.BlockSpec Model.Mem Model.Fast Model.FastApi
-     Proofs.FactorSpec Proofs.FastSound Proofs.FastApiSound.
+     Proofs.FactorSpec Proofs.FastSound Proofs.FastApiSound Proofs.FastDestSize.
 Import ListNotations.
 Local Open Scope Z_scope.
 
@@ -22,8 +22,11 @@ Theorem C06_fast_generic_strict :
     (forall a, 0 <= vrd a < 256) -> 0 <= dictSize -> od <> FillOutput ->
     forall L, L <= startIndex ->
     (dd = CUsingDictCtx -> forall h, get dtable h + dictDelta < startIndex /\
-                                     good tt dd dictSmall startIndex dictSize (get dtable h + dictDelta)) ->
+                                     good3 tt dd dictSmall startIndex dictSize (get dtable h + dictDelta)) ->
     (dist_active tt = false -> startIndex + inputSize - MFLIMIT - hist_lo dd startIndex dictSize <= 65535) ->
+    0 <= startIndex ->
+    (tt = ByU16 -> mflimitPlusOne startIndex inputSize <= 65536
+                   \/ (dictSmall = true /\ 65536 <= startIndex - dictSize /\ L <= 0)) ->
     1 <= acceleration ->
     forall tab ss last consumed tab' hw,
     0 <= inputSize -> tab_ok tt dd dictSmall startIndex dictSize L (startIndex + 1) tab ->
@@ -55,7 +58,20 @@ Theorem C06_fastReset_history_strict :
 Proof. exact fastReset_history_sound. Qed.
 Print Assumptions C06_fastReset_history_strict.
 
-(* Not proved (no Coq model of lz4hc.c, and fillOutput is C17). *)
+(* LZ4_compress_destSize(_extState): the emitted block is strictly valid for the consumed prefix *)
+Theorem C06_destSize_strict :
+  forall src n target accel,
+    src_ok src -> 0 <= n <= LZ4_MAX_INPUT_SIZE -> 1 <= target ->
+    let a := compress_destSize_internal src n target accel in
+    1 <= a_ret a <= target /\ a_ret a <= a_hw a <= target /\
+    0 <= a_consumed a <= n /\
+    a_ret a = Z.of_nat (length (a_out a)) /\
+    strict_valid [] (a_out a) = Some (load_list src 0 (Z.to_nat (a_consumed a))) /\
+    (compressBound n <= target -> a_consumed a = n).
+Proof. exact destSize_contract. Qed.
+Print Assumptions C06_destSize_strict.
+
+(* Not proved (no Coq model of lz4hc.c). *)
 Definition C06_hc_full_statement : Prop :=
   forall (compress_HC : mem -> Z -> Z -> Z -> Z * list byte) (src : mem) srcSize cap level,
     src_ok src -> let '(r, out) := compress_HC src srcSize cap level in
